@@ -401,6 +401,40 @@ func runC10(w *World) {
 			w.Violate("C10/activity-after-shutdown", "corebgp dialled after the server was shut down")
 			return
 		}
+		if w.Chance(1, 4, "restart") {
+			// "restart": a fresh Server in the same process (nothing of the old one may
+			// linger: no goroutine, no global state) serves the same peer again
+			e2 := w.NewEnv("10.0.0.5")
+			if e2 == nil {
+				return
+			}
+			cp := ch.Peers[0]
+			spec := cp.Spec
+			spec.Passive = false
+			spec.IdleHold, spec.ConnectRetry = time.Second, 2*time.Second
+			p2 := e2.NewPeer(spec, cp.RemoteID, cp.RemoteHold)
+			p2.Site.DialPolicy = func(*DialRec) int { return 1 }
+			p2.Site.OnConn = func(c *Conn) { p2.Speaker.Serve(c, func() bool { return false }) }
+			if err := e2.Add(p2); err != nil {
+				w.Violate("C10/restart/addpeer", "AddPeer on a fresh server after shutdown failed: %v", err)
+				return
+			}
+			e2.Serve("10.0.0.5:179")
+			if !w.WaitUntil("c10.restart", 4*time.Second, func() bool { return p2.Plug.NEst == 1 }) {
+				w.Violate("C10/restart/not-established", "a fresh Server started after the shutdown could not establish a session within 4 s")
+				return
+			}
+			w.Probe("restart-established")
+			if !e2.Shutdown(10 * time.Second) {
+				w.Violate("C10/return/never-close-after-restart", "Close of the restarted server did not return")
+				return
+			}
+			w.Quiesce()
+			if lt := w.LibTasksAlive(); len(lt) > 0 {
+				w.Violate("C10/leak/restart", "%d corebgp goroutine(s) alive after the restarted server was closed", len(lt))
+				return
+			}
+		}
 	}
 }
 
